@@ -1103,12 +1103,12 @@ class PteraTransformer(NodeTransformer):
             x: int = _ptera_interact('x', int)
         """
         ann = self._ann(node.annotation)
-        if (
-            node.value is None
-            and isinstance(node.target, ast.Name)
-            and not self.should_instrument(node.target.id, ann)
-        ):
+        if node.value is None and (
+            # A declaration of something else than a variable
+            not isinstance(node.target, ast.Name)
             # A declaration that nothing can provide a value for
+            or not self.should_instrument(node.target.id, ann)
+        ):
             return node
         return self.make_interaction(
             node.target,
